@@ -44,4 +44,5 @@ def main(tier):
     chk.run("R-NULLORDER", V.nullorder, cx.repo, floor=8)
     chk.run("R-BITSFIELD", V.bitsfield, cx.repo, floor=2)
     chk.run("R-NEGLOC", V.negloc, cx.repo, cx.schema, cx.sites, floor=2)
+    chk.run("R-ATTRBACKEND", V.attrbackend, cx.repo, floor=6)
     return chk.finish()
